@@ -237,7 +237,7 @@ def gen_apply(tier, rng, n):
         if bounds(sdt)[1] < m:
             sdt = "int32"
         out.append({"op": "x_apply", "fn": fn, "level": level, "col": col, "spans": sp, "sdtype": sdt,
-                    "sform": rng.choice(["ndarray", "ndarray", "field"]) if level.startswith("field") or level == "h5field" else "ndarray",
+                    "sform": rng.choice(["ndarray", "ndarray", "field", "h5field"]) if level.startswith("field") or level == "h5field" else "ndarray",
                     "tform": rng.choice(["ndarray"] * 8 + ["field"] * 5 + ["list"]) if level.startswith("session") else "ndarray"})
     # spans of a narrow dtype whose LAST boundary is the dtype's largest value
     for sdt, top in (("int8", 127), ("uint8", 255)) + ((("int16", 32767), ("uint16", 65535)) if tier != "quick" else ()):
@@ -286,7 +286,7 @@ def gen_filter_index(tier, rng, n):
             idx = [x - m if rng.random() < 0.5 and x - m >= lo else x for x in idx]       # negative subscripts, as numpy allows
         col = any_col(rng, min(m, 12)) if m <= 5 else None
         out.append({"op": "x_index", "kind": rng.choice(["indexed", "num", "fixed"]), "n": m, "col": col, "idtype": idt, "index": idx,
-                    "iform": rng.choice(["ndarray"] * 12 + ["field"] * 6 + ["list"]),
+                    "iform": rng.choice(["ndarray"] * 12 + ["field"] * 5 + ["h5field"] * 3 + ["list"]),
                     "entry": rng.choice(["field", "session", "session_arr", "session_dest", "frame", "frame_inplace", "h5field", "field_target",
                                          "field_inplace"])})
         fdt = rng.choice(["bool", "bool", "bool", "int8", "uint8", "int16", "uint16", "int32", "uint32", "int64", "float32", "float64"] * 2 + ["uint64"])
@@ -297,7 +297,7 @@ def gen_filter_index(tier, rng, n):
             flt = [rng.choice(["0.0", "1.0", "nan", "-0.0", "0.5", "inf"]) for _ in range(m)]
         col = any_col(rng, m) if m <= 9 else None
         out.append({"op": "x_filter", "kind": rng.choice(["indexed", "num", "fixed"]), "n": m, "col": col, "fdtype": fdt, "filter": flt,
-                    "fform": rng.choice(["ndarray"] * 12 + ["field"] * 6 + ["list"]),
+                    "fform": rng.choice(["ndarray"] * 12 + ["field"] * 5 + ["h5field"] * 3 + ["list"]),
                     "entry": rng.choice(["field", "session", "session_arr", "session_dest", "frame", "frame_inplace", "h5field", "field_target",
                                          "field_inplace"])})
     return out
@@ -307,7 +307,7 @@ def gen_sort(tier, rng, n):
     out = []
     for _ in range(n):
         m = rng.choice([0, 1, 2, rng.randrange(3, 12)])
-        keys = [any_col(rng, m, kinds=("num", "num", "fixed", "categorical", "timestamp")) for _ in range(rng.choice([1, 1, 2]))]
+        keys = [any_col(rng, m, kinds=("num", "num", "num", "fixed", "categorical", "timestamp", "indexed")) for _ in range(rng.choice([1, 1, 2]))]
         for k in keys:
             if k["dt"] in FLOAT_DTYPES:
                 k["v"] = [x if x != "nan" or rng.random() < 0.5 else "1.0" for x in k["v"]]
@@ -448,7 +448,7 @@ def gen_groupby(tier, rng, n):
                             "hint": rng.random() < 0.5, "entry": "groupby", "_nan_at": where})
     for _ in range(n):
         m = rng.choice([0, 1, 2, rng.randrange(3, 14)])
-        keys = [any_col(rng, m, kinds=("num", "num", "num", "fixed", "categorical"), dts=FIELD_DTYPES)]
+        keys = [any_col(rng, m, kinds=("num", "num", "num", "num", "fixed", "fixed", "categorical", "categorical", "indexed"), dts=FIELD_DTYPES)]
         if rng.random() < 0.3:
             keys.append(num_col(rng, m, rng.choice(["int8", "int32", "uint8", "bool"])))
         for k in keys:                                  # few distinct values, so that groups have several rows
@@ -687,9 +687,10 @@ def gen_ops(tier, rng, n):
     """module-level kernels of exetera.core.operations that no Session / DataFrame / Field method reaches"""
     out = []
     for _ in range(n):
-        fn = rng.choice(["check_sorted", "left_size", "inner_size", "outer_size_bu", "last_as_filter", "inner_map", "left_map", "journal_idx"])
+        fn = rng.choice(["check_sorted", "left_size", "inner_size", "outer_size_bu", "last_as_filter", "inner_map", "left_map", "journal_idx",
+                         "inner_lu_partial", "stream_sort"])
         nl, nr = rng.choice([0, 1, 2, 5, 9]), rng.choice([0, 1, 3, 6])
-        bu = fn in ("outer_size_bu",) or rng.random() < 0.4
+        bu = fn in ("outer_size_bu", "inner_lu_partial") or rng.random() < 0.4
         lk = key_col(rng, nl, dup=not bu, kinds=("int", "uint", "float", "fixed"))
         rk = same_kind_key(rng, lk, nr, dup=not (bu or fn == "left_map"))
         if fn == "check_sorted":
@@ -862,6 +863,10 @@ def as_form(e, a, form, dt=None):
         return a.tolist() if hasattr(a, "tolist") else list(a)
     if form == "field":
         f = e["fields"].NumericMemField(e["s"], str(a.dtype))
+        f.data.write(a)
+        return f
+    if form == "h5field" and str(a.dtype) in FIELD_DTYPES:
+        f = new_df(e, "arg").create_numeric("a", str(a.dtype))
         f.data.write(a)
         return f
     return a
@@ -1583,6 +1588,21 @@ def do_ops(e, case):
         else:
             ret = ops.ordered_inner_map(l, r, a, b)
         return {"ret": cv(e, ret), "l": cv(e, a), "r": cv(e, b)}
+    if fn == "inner_lu_partial":                  # one call of the streamed left-unique inner map's kernel, 4-row result buffers
+        a, b = np.zeros(4, dtype=case["mdtype"]), np.zeros(4, dtype=case["mdtype"])
+        ret = ops.ordered_inner_map_left_unique_partial(3, 5, l, r, a, b)
+        m = int(ret[2])
+        return {"ret": cv(e, tuple(ret)), "l": cv(e, a[:m]), "r": cv(e, b[:m])}
+    if fn == "stream_sort":                       # two sorted chunks of equal length (a 2-d array), merged until one is used up
+        n = min(len(l), len(r))
+        if n == 0 or l.dtype != r.dtype:
+            return {"skip": True}
+        vals = np.stack([l[:n], r[:n]])
+        idx = np.stack([np.arange(n, dtype="int64"), np.arange(n, dtype="int64") + 100])
+        pos, lens = np.zeros(2, dtype="int64"), np.array([n, n], dtype="int64")
+        dv, di = np.zeros(2 * n, dtype=vals.dtype), np.zeros(2 * n, dtype="int64")
+        k = int(ops.streaming_sort_partial(pos, lens, vals, idx, dv, di))
+        return {"k": k, "vals": cv(e, dv[:k]), "idx": cv(e, di[:k]), "pos": cv(e, pos)}
     res = np.zeros(len(l), dtype="int64")          # left_map: the right key is unique
     if case["lu"]:
         ret = ops.generate_ordered_map_to_left_both_unique(l, r, res, ops.INVALID_INDEX)
